@@ -717,7 +717,7 @@ func sortedKeys(m map[uint32]bool) []uint32 {
 
 // checkParticipants is the C29 invariant, evaluated on every honest node's
 // current round; seen maps height -> first node's selection.
-func checkParticipants(c *simkit.Ctx, net *world.VbftNet, seen map[uint32]string) {
+func checkParticipants(c *simkit.Ctx, net *world.VbftNet, seen map[string]string) {
 	for _, nd := range net.Nodes {
 		if nd.Byz || nd.Srv == nil {
 			continue
@@ -754,13 +754,25 @@ func checkParticipants(c *simkit.Ctx, net *world.VbftNet, seen map[uint32]string
 				}
 			}
 		}
-		if prev, ok := seen[blk]; ok {
+		// the selection is a function of (seed, configuration): the seed comes from
+		// the previous block, so nodes are compared per (height, previous block) -
+		// after a fork (C34's subject) two nodes legitimately stand on different seeds
+		prevHash, _, _, okPrev := nd.Srv.SimSealed(blk - 1)
+		if !okPrev {
+			if nd.Chain.Store != nil && nd.Chain.Store.GetCurrentBlockHeight() >= blk-1 {
+				prevHash = nd.Chain.Store.GetBlockHash(blk - 1)
+			} else {
+				continue
+			}
+		}
+		key := fmt.Sprintf("%d/%x", blk, prevHash[:8])
+		if prev, ok := seen[key]; ok {
 			if prev != desc {
-				c.Fail("participants-differ-between-nodes", "participants", "height %d: node %d selects %s, another node selected %s", blk, nd.I, desc, prev)
+				c.Fail("participants-differ-between-nodes", "participants", "height %d on top of block %x: node %d selects %s, another node selected %s", blk, prevHash[:6], nd.I, desc, prev)
 			}
 		} else {
-			seen[blk] = desc
-			c.State("participants", blk, desc)
+			seen[key] = desc
+			c.State("participants", key, desc)
 		}
 	}
 }
